@@ -22,6 +22,19 @@ Theorem C29_verify_sound : forall f, verify f = true -> forall n o, reach f n o 
 Proof. exact verify_sound. Qed.
 Print Assumptions C29_verify_sound.
 
+(* Pool operands have the KIND the opcode makes the VM assume (the VM casts value-pool entries
+   with unchecked pointer casts): at every offset reached by any path of an accepted function,
+   an operand of CALL_METHOD*/CALL*/NEXT* names a *CallSiteInfo entry, one of CALL_METHOD_BC* a
+   *BytecodeCallSiteInfo entry, one of CALL_METHOD_NT* a *NativeCallSiteInfo entry, one of
+   GET_CONST*/GET_IVAR_NAME*/SET_IVAR_NAME* an inline Symbol (roles per opcode: the regenerated
+   table; kinds per pool entry: exported by the harness from the Go type of the entry). *)
+Theorem C29_pool_kinds_sound : forall f, verify f = true -> forall n o, reach f n o ->
+  exists i, instr_at f o = Some i /\
+    forall r v, In (r, v) (i_idx i) -> pool_role r = true ->
+      exists k, nth_error (f_vals f) (N.to_nat v) = Some k /\ kind_required r k.
+Proof. exact verify_kinds_sound. Qed.
+Print Assumptions C29_pool_kinds_sound.
+
 (* Every catch entry of an accepted function jumps to an instruction start, and its From/To are
    instruction starts (To may be the end of the code) unless the entry covers nothing. *)
 Theorem C29_catch_entries_sound : forall f c, verify f = true -> In c (f_catches f) ->
@@ -59,4 +72,16 @@ Example C29_nonvacuous :
   (exists f, build optable (mkraw [32; 1; 2; 215; 30; 217; 34; 40; 218; 9; 175; 34; 30; 69; 0; 9; 1] [] [] 0 0) = Some f /\ verify f = false).
 Proof.
   split; [|split]; eexists; (split; [vm_compute; reflexivity|]); vm_compute; repeat split; reflexivity.
+Qed.
+
+(* non-vacuity of the kind clause: SELF; CALL_METHOD_BC8 0; RETURN is accepted when pool entry 0
+   is a bytecode call-site info and rejected when entry 0 exists but is a plain value (what a
+   16-bit call rewritten to the 8-bit opcode refers to), a dynamic call-site info or a native one. *)
+Example C29_kinds_nonvacuous :
+  (exists f, build optable (mkraw [108; 116; 0; 1] [VCallBC] [] 0 0) = Some f /\ verify f = true) /\
+  (exists f, build optable (mkraw [108; 116; 0; 1] [VOther] [] 0 0) = Some f /\ verify f = false) /\
+  (exists f, build optable (mkraw [108; 116; 0; 1] [VCall] [] 0 0) = Some f /\ verify f = false) /\
+  (exists f, build optable (mkraw [108; 116; 0; 1] [VCallNT] [] 0 0) = Some f /\ verify f = false).
+Proof.
+  split; [|split; [|split]]; eexists; (split; [vm_compute; reflexivity|]); vm_compute; reflexivity.
 Qed.
